@@ -411,6 +411,16 @@ def gen(rng, tier):
         if k % 3 == 0:
             na, nb = nb, na
         out.append(Case("seg.close1n %s %s %d %d" % (dline(a), dline(b), na, nb), kind="close-noise", theorem="C19_can_close_abstraction"))
+    # 1d. descriptors not (yet) attached to a signal: every rule that does not compare signal times answers as for attached
+    # descriptors (seeded C19-v2: a guard made detached descriptors close nothing); all rule-type pairs x the condition grid
+    for tin in rt:
+        for tout in rt:
+            for ee in (0, 1):
+                for se in (0, 1):
+                    a = dict(id=0, ty=tin, event=7, haspts=1, ptsv=1000, segnum=2 if se else 1, segexp=2, hassub=0, subnum=0, subexp=0)
+                    b = dict(id=1, ty=tout, event=7 if ee else 8, haspts=1, ptsv=1000, segnum=1, segexp=2, hassub=0, subnum=0, subexp=0)
+                    k = 1 + (tin + tout + ee + se) % 3
+                    out.append(Case("seg.closedet %s %s %d" % (dline(a), dline(b), k), kind="close-detached", theorem="C19_can_close_abstraction"))
     # 2. classification
     out.append(Case("seg.inout", kind="inout", theorem="C19_in_out_lists"))
     # 3. Equal grid
@@ -580,6 +590,8 @@ def oracle(case, real, model):
         return dec_oracle(case, real, model)
     if real == model:
         return ""
+    if case.line.startswith("seg.closedet ") and real == "[2]":
+        return ""   # the signal-time rule on a descriptor without a signal: nil dereference, outside the property (see goexec/seg.go)
     try:
         from vlib import parse_val
         r, m = parse_val(real), parse_val(model)
@@ -612,6 +624,11 @@ def oracle(case, real, model):
                 if r[k] != m[k]:
                     return ("%s = %d, required %d: the relation depends on a field outside (type, event id, PTS, segment numbers) - "
                             "noise masks d=%s o=%s (goexec/seg.go mkDescN)" % (names[k], r[k], m[k], f[-2], f[-1]))
+        if f[0] == "seg.closedet":
+            names = ["CanClose(d, o)", "d.IsIn()", "d.IsOut()", "o.IsIn()", "o.IsOut()"]
+            for k in range(5):
+                if r[k] != m[k]:
+                    return "%s = %d, required %d on descriptors not attached to a signal (mode %s)" % (names[k], r[k], m[k], f[-1])
         if f[0] == "seg.eqn":
             for i in range(len(m)):
                 for j in range(len(m)):
